@@ -90,7 +90,13 @@ def runs(ctx: Ctx):
         target = plan[0][1] if single else "255.255.255.255"
         # now and then the probes to ONE of the two ports cannot be sent (local firewall, no route): the devices answering the other probe are found
         fail_port = [None, None, None, 20086, None, 6445][k % 6]
-        v = disc.run_discovery(plan, target=target, single=single, udp_send_error=(lambda addr, fp=fail_port: addr is not None and addr[1] == fp) if fail_port else None)
+        kw = {}
+        if k % 5 == 2:
+            # the caller passes own cloud credentials while the cloud is unreachable / rejects them: with auto_connect off nothing needs the cloud
+            from .. import cloudsrv
+            srv = cloudsrv.ModelCloud("user@example.com", "secret", rng=rng, script=[rng.choice(["timeout", "http", "api"])] * 60)
+            kw = dict(cloud_client=srv.client, account="user@example.com", password=rng.choice(["secret", "wrong"]))
+        v = disc.run_discovery(plan, target=target, single=single, udp_send_error=(lambda addr, fp=fail_port: addr is not None and addr[1] == fp) if fail_port else None, **kw)
         v.pop("devices", None)
         out.append(v)
         k += 1
